@@ -194,6 +194,25 @@ func parseRender(name, src string) string {
 	return string(b)
 }
 
+// tsFor: the timestamp text a run carries depends on its message, so that concurrent runs of default_time meet different built-in
+// layouts (nginx, redis, mysql, gin, postgresql) and the general parser at the same time
+func tsFor(msg string) string {
+	switch msg {
+	case "zzz 7":
+		return "04/Mar/2021:05:06:07 +0000"
+	case "abc 12":
+		return "04 Mar 2021 05:06:07.123"
+	case "nomatch":
+		return "2021/03/04 - 05:06:07"
+	case "":
+		return "210304 05:06:07"
+	}
+	if len(msg)%2 == 0 {
+		return "2021-03-04 05:06:07.123 UTC"
+	}
+	return "2021-03-04 05:06:07"
+}
+
 // sqlFor: the SQL text a run carries depends on its message, so that concurrent runs feed different statements to sql_cover -
 // among them ones whose reading depends on how backslashes inside string literals are treated (an engine that remembered
 // the last reading across calls would make one run's result depend on another's)
@@ -212,7 +231,7 @@ func sqlFor(msg string) string {
 // canonical result of one run of the shared main script on a private point
 func sharedRun(sc *plruntime.Script, msg string, sig plruntime.Signal) string {
 	pt := input.GetPoint()
-	input.InitPt(pt, "m", map[string]string{"t": "v"}, map[string]any{"message": msg, "f": int64(1), "q": sqlFor(msg), "ts": "2021-03-04 05:06:07",
+	input.InitPt(pt, "m", map[string]string{"t": "v"}, map[string]any{"message": msg, "f": int64(1), "q": sqlFor(msg), "ts": tsFor(msg),
 		"dt": int64(1614834367123), "xm": "<a><b>v</b></a>", "u": "a%20b", "js": "[1, 2]"}, fixedTime)
 	err := sc.Run(pt, sig)
 	s := fmt.Sprintf("err=%v fields=%s tags=%s", errStr(err), showVal(map[string]any(pt.Fields)), fmt.Sprint(pt.Tags))
